@@ -54,7 +54,7 @@ HOSTILE = [
     'csi\x9b' + MARK + '\x9b31m',
     'ff\x0c' + MARK + '\x0bvt\x1c\x1d\x1e',
 ]
-GENS = ['corpus', 'corpus', 'corpus-attr', 'corpus-splice', 'valid-unusual', 'bgpls-names', 'bgpls-names', 'srpolicy-names', 'unknown-attr', 'operational', 'refresh', 'notification', 'ref-update', 'ref-update', 'ref-update']
+GENS = ['corpus', 'corpus', 'corpus-attr', 'corpus-splice', 'valid-unusual', 'bgpls-names', 'bgpls-names', 'srpolicy-names', 'unknown-attr', 'operational', 'refresh', 'notification', 'ref-update', 'ref-update', 'ref-update', 'rfc7606-mix']
 ENVELOPE = {'exabgp', 'time', 'host', 'pid', 'ppid', 'counter', 'type'}
 
 
@@ -114,6 +114,18 @@ def build(item: dict, kind: dict) -> tuple[int, bytes, int]:
                 if msg is not None:
                     return 2, msg[19:], 0
         g = 'unknown-attr'
+    if g == 'rfc7606-mix':
+        # an UPDATE that still decodes although several of its attributes are malformed (RFC 7606 treat-as-withdraw and
+        # attribute-discard classes together): the event reporting it has to be one well-formed record all the same
+        taw = [R.attribute(R.A_MED, b'\x00\x00\x01'), R.attribute(R.A_COMMUNITY, b'\xfd\xe8\x00'), R.attribute(R.A_LARGE_COMMUNITY, b'\x00' * 11), R.attribute(R.A_EXT_COMMUNITY, b'\x00\x02\xfd')]
+        disc = [R.attribute(R.A_AGGREGATOR, b'\xfd\xf2\x0a\x00\x00'), R.attribute(R.A_ATOMIC, b'\x01'), R.attribute(R.A_AGGREGATOR, b'')]
+        origin = R.attribute(R.A_ORIGIN, b'\x00\x00') if rng.chance(0.5) else R.attribute(R.A_ORIGIN, b'\x00')
+        path = R.attribute(R.A_AS_PATH, R.enc_as_path([(2, [kind['peer_as']])] if kind['peer_as'] != 65001 else [], kind['asn4']))
+        lp = R.attribute(R.A_LOCAL_PREF, (100).to_bytes(4, 'big')) if kind['peer_as'] == 65001 else b''
+        parts = [origin, path, R.attribute(R.A_NEXT_HOP, bytes([10, 0, 0, 9])), lp] + rng.sample(taw, rng.randint(0, 2)) + rng.sample(disc, rng.randint(0, 2))
+        if rng.chance(0.3):
+            rng.shuffle(parts)
+        return 2, R.build_update(attrs=b''.join(parts), nlri=c03.v4nlri(kind, '192.0.2.0/24'), withdrawn=c03.v4nlri(kind, '198.51.100.0/24') if rng.chance(0.3) else b'')[19:], 0
     if g == 'bgpls-names':
         tl = []
         for _ in range(rng.randint(1, 3)):
